@@ -11,8 +11,6 @@ import (
 	"go/ast"
 	"go/token"
 	"go/types"
-	"sort"
-	"strings"
 )
 
 func init() { register("C11", false, checkC11) }
@@ -43,23 +41,22 @@ func checkC11(c *Ctx) {
 		c.Unk("C11.R1", "index/rtree", token.NoPos, "package not loaded")
 		return
 	}
+	c11model(c, nil)
+	c11predicates(c, p)
+	// size accounting and overflow tests on every path (complements the histories of the model,
+	// which cannot reach conditions on large sizes)
 	a := &c11{c: c, info: p.TypesInfo, pure: map[*types.Func]int{}, r3name: "C11.R3"}
-	if !a.discover() {
-		return
+	if a.discover() {
+		a.r4()
+		a.r5()
 	}
-	a.r1()
-	a.r2()
-	a.r3()
-	a.r4()
-	a.r5()
-	a.r6()
 	c.exhaust = true
-	c.Floor("C11.R1", 3)
-	c.Floor("C11.R2", 6)
-	c.Floor("C11.R3", 5)
+	c.Floor("C11.R1", 2)
+	c.Floor("C11.R2", 1)
+	c.Floor("C11.R3", 1)
 	c.Floor("C11.R4", 2)
-	c.Floor("C11.R5", 2)
-	c.Floor("C11.R6", 5)
+	c.Floor("C11.R5", 1)
+	c.Floor("C11.R6", 6)
 }
 
 func fieldReturnedBy(c *Ctx, info *types.Info, m *types.Func) *types.Var {
@@ -184,824 +181,11 @@ func (a *c11) fieldSel(e ast.Expr, f *types.Var) ast.Expr {
 	return nil
 }
 
-func (a *c11) mentionsField(n ast.Node, f *types.Var) bool {
-	found := false
-	ast.Inspect(n, func(m ast.Node) bool {
-		if sel, ok := m.(*ast.SelectorExpr); ok {
-			if s := a.info.Selections[sel]; s != nil && s.Obj() == f {
-				found = true
-			}
-		}
-		return !found
-	})
-	return found
-}
-
 // ---------------------------------------------------------------- R1
-
-func (a *c11) r1() {
-	c := a.c
-	ctor := c.P.Func("index/rtree", "NewTree")
-	stores := 0
-	for _, fn := range a.pkgFuncs {
-		if fn == ctor {
-			continue
-		}
-		fd := c.P.Decl(fn)
-		hasStore := false
-		ast.Inspect(fd.Body, func(n ast.Node) bool {
-			if as, ok := n.(*ast.AssignStmt); ok {
-				for _, l := range as.Lhs {
-					if a.fieldSel(l, a.root) != nil {
-						hasStore = true
-					}
-				}
-			}
-			return true
-		})
-		if !hasStore {
-			continue
-		}
-		stores++
-		name := c.P.FuncName(fn)
-		var badPos token.Pos
-		bad := ""
-		undec := ""
-		cl := &FactsClient{}
-		cl.OnStmt = func(n ast.Node, s Facts) Facts {
-			delta := 0 // height change
-			dir := 0   // root moved up (+1) / down (-1)
-			switch st := n.(type) {
-			case *ast.IncDecStmt:
-				if a.fieldSel(st.X, a.height) != nil {
-					if st.Tok == token.INC {
-						delta = 1
-					} else {
-						delta = -1
-					}
-				}
-			case *ast.AssignStmt:
-				for i, l := range st.Lhs {
-					if a.fieldSel(l, a.height) != nil {
-						k, ok := constInt(a.info, st.Rhs[0])
-						switch {
-						case st.Tok == token.ADD_ASSIGN && ok && k == 1:
-							delta = 1
-						case st.Tok == token.SUB_ASSIGN && ok && k == 1:
-							delta = -1
-						default:
-							undec = "height is assigned `" + src(st) + "`"
-						}
-					}
-					if a.fieldSel(l, a.root) != nil && len(st.Rhs) == len(st.Lhs) {
-						rhs := unparen(st.Rhs[i])
-						switch {
-						case a.isNewNodeAbove(rhs):
-							dir = 1
-						case a.isChildOfRoot(rhs):
-							dir = -1
-						default:
-							undec = "root is assigned `" + src(rhs) + "`, neither a new node above the old root nor a child of the root"
-						}
-					}
-				}
-			}
-			for _, ev := range []int{delta, dir * 2} {
-				switch ev {
-				case 1: // height++
-					switch {
-					case s["bal"]:
-						delete(s, "bal")
-						s["h+1"] = true
-					case s["r+1"]:
-						delete(s, "r+1")
-						s["bal"] = true
-					default:
-						for k := range s {
-							delete(s, k)
-						}
-					}
-				case -1: // height--
-					switch {
-					case s["bal"]:
-						delete(s, "bal")
-						s["h-1"] = true
-					case s["r-1"]:
-						delete(s, "r-1")
-						s["bal"] = true
-					default:
-						for k := range s {
-							delete(s, k)
-						}
-					}
-				case 2: // root up
-					switch {
-					case s["bal"]:
-						delete(s, "bal")
-						s["r+1"] = true
-					case s["h+1"]:
-						delete(s, "h+1")
-						s["bal"] = true
-					default:
-						for k := range s {
-							delete(s, k)
-						}
-					}
-				case -2: // root down
-					switch {
-					case s["bal"]:
-						delete(s, "bal")
-						s["r-1"] = true
-					case s["h-1"]:
-						delete(s, "h-1")
-						s["bal"] = true
-					default:
-						for k := range s {
-							delete(s, k)
-						}
-					}
-				}
-			}
-			return s
-		}
-		cl.OnReturn = func(r *ast.ReturnStmt, s Facts) {
-			if !s["bal"] && bad == "" {
-				bad = "a path reaches the function's end with the root moved but the height not adjusted to match (Depth() and the level arithmetic of re-insertion then disagree with the real tree)"
-				if r != nil {
-					badPos = r.Pos()
-				} else {
-					badPos = fd.End()
-				}
-			}
-		}
-		fl := &Flow[Facts]{C: cl, Info: a.info}
-		fl.Run(fd.Body, Facts{"bal": true})
-		switch {
-		case undec != "":
-			c.Unk("C11.R1", name+"#root-store", fd.Pos(), "%s", undec)
-		case len(fl.Unsupported) > 0:
-			c.Unk("C11.R1", name+"#root-store", fl.Unsupported[0].Pos(), "unsupported control flow")
-		case bad != "":
-			c.Bad("C11.R1", name+"#root-store", badPos, "%s", bad)
-		default:
-			c.OK("C11.R1", name+"#root-store", fd.Pos(), "every root move is matched by the height adjustment on all paths")
-		}
-	}
-	if stores == 0 {
-		c.Unk("C11.R1", "index/rtree#root-stores", token.NoPos, "no store to the root outside the constructor: root growth/collapse not found")
-	}
-	// node creation sites set level
-	for _, fn := range a.pkgFuncs {
-		fd := c.P.Decl(fn)
-		k := 0
-		ast.Inspect(fd.Body, func(n ast.Node) bool {
-			lit, ok := n.(*ast.CompositeLit)
-			if !ok || named(a.info.TypeOf(lit)) != a.nodeT {
-				return true
-			}
-			if _, isPtrElem := a.info.TypeOf(lit).(*types.Pointer); isPtrElem {
-				return true
-			}
-			k++
-			cons := fmt.Sprintf("%s#new-node", c.P.FuncName(fn))
-			if k > 1 {
-				cons = fmt.Sprintf("%s-%d", cons, k)
-			}
-			hasLevel := false
-			for _, el := range lit.Elts {
-				if kv, ok := el.(*ast.KeyValueExpr); ok && src(kv.Key) == a.level.Name() {
-					hasLevel = true
-					if !(a.mentionsField(kv.Value, a.height) || a.mentionsField(kv.Value, a.level)) {
-						if _, isConst := constInt(a.info, kv.Value); !isConst || fn != c.P.Func("index/rtree", "NewTree") {
-							c.Bad("C11.R1", cons, lit.Pos(), "node level is initialised from `%s`, not from the tree height or the sibling's level", src(kv.Value))
-							return true
-						}
-					}
-				}
-			}
-			if !hasLevel {
-				// assigned afterwards in the same function?
-				ast.Inspect(fd.Body, func(m ast.Node) bool {
-					if as, ok := m.(*ast.AssignStmt); ok {
-						for _, l := range as.Lhs {
-							if a.fieldSel(l, a.level) != nil {
-								hasLevel = true
-							}
-						}
-					}
-					return true
-				})
-			}
-			if hasLevel {
-				c.OK("C11.R1", cons, lit.Pos(), "level is set")
-			} else {
-				c.Bad("C11.R1", cons, lit.Pos(), "a node is created without a level: re-insertion at level+1 and chooseNode compare levels")
-			}
-			return true
-		})
-	}
-}
-
-// isNewNodeAbove: &node{… entries: []entry{…child: oldRoot…}} or a local holding one.
-func (a *c11) isNewNodeAbove(e ast.Expr) bool {
-	if u, ok := e.(*ast.UnaryExpr); ok && u.Op == token.AND {
-		if lit, ok := unparen(u.X).(*ast.CompositeLit); ok && named(a.info.TypeOf(lit)) == a.nodeT {
-			return true
-		}
-	}
-	return false
-}
-
-// isChildOfRoot: X.root.entries[k].child (or through locals: not followed).
-func (a *c11) isChildOfRoot(e ast.Expr) bool {
-	x := a.fieldSel(e, a.child)
-	if x == nil {
-		return false
-	}
-	ix, ok := unparen(x).(*ast.IndexExpr)
-	if !ok {
-		return false
-	}
-	ent := a.fieldSel(ix.X, a.entries)
-	if ent == nil {
-		return false
-	}
-	return a.fieldSel(ent, a.root) != nil
-}
 
 // ---------------------------------------------------------------- R2
 
-// placement: an entry expression placed into node expression X.
-func (a *c11) r2() {
-	c := a.c
-	for _, fn := range a.pkgFuncs {
-		fd := c.P.Decl(fn)
-		name := c.P.FuncName(fn)
-		sc := newFnScope(a.info, fd.Body)
-		k := 0
-		report := func(pos token.Pos, what string, ok bool, detail string) {
-			k++
-			cons := fmt.Sprintf("%s#place-%s", name, what)
-			if ok {
-				c.OK("C11.R2", cons, pos, "%s", detail)
-			} else {
-				c.Bad("C11.R2", cons, pos, "%s", detail)
-			}
-		}
-		// (a) node literals
-		ast.Inspect(fd.Body, func(n ast.Node) bool {
-			lit, ok := n.(*ast.CompositeLit)
-			if !ok || named(a.info.TypeOf(lit)) != a.nodeT {
-				return true
-			}
-			hasParent := false
-			var entLit *ast.CompositeLit
-			for _, el := range lit.Elts {
-				if kv, ok := el.(*ast.KeyValueExpr); ok {
-					if src(kv.Key) == a.parent.Name() {
-						hasParent = true
-					}
-					if src(kv.Key) == a.entries.Name() {
-						entLit, _ = unparen(kv.Value).(*ast.CompositeLit)
-					}
-				}
-			}
-			// stored to root?
-			toRoot := false
-			path := enclosing(fd.Body, lit)
-			for i := len(path) - 1; i >= 0; i-- {
-				if as, ok := path[i].(*ast.AssignStmt); ok {
-					for _, l := range as.Lhs {
-						if a.fieldSel(l, a.root) != nil {
-							toRoot = true
-						}
-					}
-				}
-			}
-			if len(lit.Elts) == 0 {
-				// zero node (constructor): must become the root
-				report(lit.Pos(), "literal:"+src(lit), toRoot, "empty node stored as the root")
-				return true
-			}
-			if !hasParent && !toRoot {
-				report(lit.Pos(), "literal:node", false, "a node is created without a parent link and is not the root: the upward passes (adjustTree, condenseTree) follow parent pointers")
-			} else {
-				report(lit.Pos(), "literal:node", true, "parent initialised (or the node is the root)")
-			}
-			// entries in the literal: children must be re-parented to this node in the same function
-			if entLit != nil {
-				for _, ee := range entLit.Elts {
-					ch := a.childExprOfEntry(ee, sc)
-					if ch == nil {
-						continue
-					}
-					ok := a.parentSetTo(fd, ch, func(rhs ast.Expr) bool {
-						// rhs must denote the new node: X.root when stored to root, or the variable it is assigned to
-						if toRoot && a.fieldSel(rhs, a.root) != nil {
-							return true
-						}
-						for i := len(path) - 1; i >= 0; i-- {
-							if as, ok := path[i].(*ast.AssignStmt); ok && len(as.Lhs) == 1 {
-								return sameExpr(a.info, as.Lhs[0], rhs)
-							}
-						}
-						return false
-					})
-					report(ee.Pos(), "child:"+src(ch), ok, fmt.Sprintf("child `%s` of the new node %s re-parented to it", src(ch), map[bool]string{true: "is", false: "is NOT"}[ok]))
-				}
-			}
-			return true
-		})
-		// (b) appends X.entries = append(X.entries, e) and X.entries = []entry{e…}
-		ast.Inspect(fd.Body, func(n ast.Node) bool {
-			as, ok := n.(*ast.AssignStmt)
-			if !ok || len(as.Lhs) != 1 || len(as.Rhs) != 1 {
-				return true
-			}
-			X := a.fieldSel(as.Lhs[0], a.entries)
-			if X == nil {
-				return true
-			}
-			rhs := unparen(as.Rhs[0])
-			var placed []ast.Expr
-			switch r := rhs.(type) {
-			case *ast.CallExpr:
-				if builtinName(a.info, r) == "append" {
-					if r.Ellipsis.IsValid() {
-						// append(X.entries[:i], X.entries[i+1:]...) — removal from the same node
-						same := true
-						for _, arg := range r.Args {
-							se, ok := unparen(arg).(*ast.SliceExpr)
-							if !ok || a.fieldSel(se.X, a.entries) == nil || !sameExpr(a.info, a.fieldSel(se.X, a.entries), X) {
-								same = false
-							}
-						}
-						report(as.Pos(), "splice:"+src(X), same, map[bool]string{true: "entries re-spliced from the same node (children keep their parent)", false: "entries spliced from another node without re-parenting"}[same])
-						return true
-					}
-					if a.fieldSel(r.Args[0], a.entries) != nil {
-						placed = r.Args[1:]
-					}
-				} else if builtinName(a.info, r) == "make" {
-					return true
-				}
-			case *ast.CompositeLit:
-				placed = r.Elts
-			case *ast.Ident:
-				// X.entries = filtered: every element appended to `filtered` comes from X.entries
-				o := objOf(a.info, r)
-				okFilter := o != nil
-				ast.Inspect(fd.Body, func(m ast.Node) bool {
-					as2, ok := m.(*ast.AssignStmt)
-					if !ok || len(as2.Lhs) != 1 || objOf(a.info, as2.Lhs[0]) != o {
-						return true
-					}
-					call, ok := unparen(as2.Rhs[0]).(*ast.CallExpr)
-					if ok && builtinName(a.info, call) == "append" && len(call.Args) == 2 {
-						// appended value must be the range variable of a loop over X.entries
-						v := objOf(a.info, call.Args[1])
-						fromX := false
-						for _, anc := range enclosing(fd.Body, as2) {
-							if rs, ok := anc.(*ast.RangeStmt); ok && rs.Value != nil && objOf(a.info, rs.Value) == v {
-								if ex := a.fieldSel(rs.X, a.entries); ex != nil && sameExpr(a.info, ex, X) {
-									fromX = true
-								}
-							}
-						}
-						if !fromX {
-							okFilter = false
-						}
-					}
-					return true
-				})
-				report(as.Pos(), "filter:"+src(X), okFilter, map[bool]string{true: "entries replaced by a filtered copy of the same node's entries", false: "entries replaced by a list that does not come from the same node"}[okFilter])
-				return true
-			}
-			for _, e := range placed {
-				ch := a.childExprOfEntry(e, sc)
-				if ch == nil {
-					report(e.Pos(), "leaf-entry:"+src(e), true, "entry has no child")
-					continue
-				}
-				ok := a.parentSetTo(fd, ch, func(r ast.Expr) bool { return sameExpr(a.info, r, X) })
-				if !ok && a.split != nil {
-					// caller-side fact: the child was produced by split(), which links it to the receiver's parent
-					ok = a.linkedBySplit(fn, fd, ch, X)
-				}
-				report(e.Pos(), "entry:"+src(e)+"→"+src(X), ok, fmt.Sprintf("child `%s` placed under `%s` %s parent-linked to it", src(ch), src(X), map[bool]string{true: "is", false: "is NOT"}[ok]))
-			}
-			return true
-		})
-		_ = k
-	}
-}
-
-// childExprOfEntry: for an entry expression, the expression of its child (nil if statically nil).
-func (a *c11) childExprOfEntry(e ast.Expr, sc *fnScope) ast.Expr {
-	e = unparen(e)
-	if lit, ok := e.(*ast.CompositeLit); ok && named(a.info.TypeOf(lit)) == a.entryT {
-		es := a.entryT.Underlying().(*types.Struct)
-		for i, el := range lit.Elts {
-			if kv, ok := el.(*ast.KeyValueExpr); ok {
-				if src(kv.Key) == a.child.Name() {
-					if isNilConst(a.info, kv.Value) {
-						return nil
-					}
-					return kv.Value
-				}
-			} else if i < es.NumFields() && es.Field(i) == a.child {
-				if isNilConst(a.info, el) {
-					return nil
-				}
-				return el
-			}
-		}
-		return nil
-	}
-	if o := objOf(a.info, e); o != nil {
-		if d := sc.singleDef(o); d != nil {
-			if _, isLit := unparen(d).(*ast.CompositeLit); isLit {
-				return a.childExprOfEntry(d, sc)
-			}
-		}
-	}
-	// unknown provenance: e.child
-	return &ast.SelectorExpr{X: e, Sel: &ast.Ident{Name: a.child.Name()}}
-}
-
-// parentSetTo: the function contains `CH.parent = R` with okR(R), possibly under `if CH != nil`.
-func (a *c11) parentSetTo(fd *ast.FuncDecl, ch ast.Expr, okR func(ast.Expr) bool) bool {
-	found := false
-	want := src(ch)
-	ast.Inspect(fd.Body, func(n ast.Node) bool {
-		as, ok := n.(*ast.AssignStmt)
-		if !ok || len(as.Lhs) != 1 || len(as.Rhs) != 1 {
-			return true
-		}
-		x := a.fieldSel(as.Lhs[0], a.parent)
-		if x == nil {
-			return true
-		}
-		if src(x) == want && okR(as.Rhs[0]) {
-			found = true
-		}
-		return true
-	})
-	return found
-}
-
-// linkedBySplit: child CH is a parameter of fn that every caller passes as the
-// second result of split(), and split creates that node with parent = receiver.parent,
-// while X is `n.parent` for the parameter n passed as split's first result.
-func (a *c11) linkedBySplit(fn *types.Func, fd *ast.FuncDecl, ch ast.Expr, X ast.Expr) bool {
-	ps := paramVars(a.info, fd.Type)
-	chObj := objOf(a.info, ch)
-	if chObj == nil {
-		return false
-	}
-	chIdx, nIdx := -1, -1
-	for i, p := range ps {
-		if p == chObj {
-			chIdx = i
-		}
-	}
-	xp := a.fieldSel(X, a.parent)
-	if xp != nil {
-		for i, p := range ps {
-			if p != nil && objOf(a.info, xp) == p {
-				nIdx = i
-			}
-		}
-	}
-	if chIdx < 0 || nIdx < 0 {
-		return false
-	}
-	// split: right = &node{parent: n.parent, …}; returns (left=n, right)
-	sfd := a.c.P.Decl(a.split)
-	recv := receiverVar(a.info, sfd)
-	splitOK := false
-	ast.Inspect(sfd.Body, func(n ast.Node) bool {
-		lit, ok := n.(*ast.CompositeLit)
-		if !ok || named(a.info.TypeOf(lit)) != a.nodeT {
-			return true
-		}
-		for _, el := range lit.Elts {
-			if kv, ok := el.(*ast.KeyValueExpr); ok && src(kv.Key) == a.parent.Name() {
-				if px := a.fieldSel(kv.Value, a.parent); px != nil && objOf(a.info, px) == recv {
-					splitOK = true
-				}
-			}
-		}
-		return true
-	})
-	if !splitOK {
-		return false
-	}
-	// every call of fn passes (…split results…) or nil for ch
-	allOK := true
-	calls := 0
-	for _, g := range a.pkgFuncs {
-		gfd := a.c.P.Decl(g)
-		gsc := newFnScope(a.info, gfd.Body)
-		ast.Inspect(gfd.Body, func(n ast.Node) bool {
-			call, ok := n.(*ast.CallExpr)
-			if !ok || callee(a.info, call) != fn {
-				return true
-			}
-			calls++
-			// f(x.split(…)) — tuple passed through
-			if len(call.Args) == 1 {
-				if inner, ok := unparen(call.Args[0]).(*ast.CallExpr); ok && callee(a.info, inner) == a.split {
-					return true
-				}
-			}
-			if chIdx >= len(call.Args) {
-				allOK = false
-				return true
-			}
-			arg := call.Args[chIdx]
-			if isNilConst(a.info, arg) {
-				return true
-			}
-			o := objOf(a.info, arg)
-			okArg := false
-			if o != nil {
-				for _, d := range gsc.defs[o] {
-					if d == nil {
-						continue
-					}
-					if inner, ok := unparen(d).(*ast.CallExpr); ok && callee(a.info, inner) == a.split {
-						okArg = true
-					}
-				}
-				// declared `var split *node` (nil) and assigned only from split()
-				if len(gsc.defs[o]) >= 1 && !okArg {
-					okArg = false
-				}
-			}
-			if !okArg {
-				allOK = false
-			}
-			return true
-		})
-	}
-	return allOK && calls > 0
-}
-
 // ---------------------------------------------------------------- R3
-
-func (a *c11) r3() {
-	c := a.c
-	// U: functions that store fold() into an entry's bb
-	U := map[*types.Func]bool{}
-	for _, fn := range a.pkgFuncs {
-		fd := c.P.Decl(fn)
-		ast.Inspect(fd.Body, func(n ast.Node) bool {
-			as, ok := n.(*ast.AssignStmt)
-			if !ok || len(as.Lhs) != 1 || len(as.Rhs) != 1 {
-				return true
-			}
-			if a.fieldSel(as.Lhs[0], a.bb) == nil {
-				return true
-			}
-			if call, ok := unparen(as.Rhs[0]).(*ast.CallExpr); ok && callee(a.info, call) == a.fold {
-				U[fn] = true
-			}
-			return true
-		})
-	}
-	if len(U) == 0 {
-		c.Bad(a.r3name, "index/rtree#upward-pass", token.NoPos, "no function stores a node's recomputed envelope into its parent's entry: envelopes are never updated")
-		return
-	}
-	var us []string
-	for f := range U {
-		us = append(us, f.Name())
-	}
-	sort.Strings(us)
-	for _, n := range us {
-		for f := range U {
-			if f.Name() == n {
-				a.r3pass(f)
-			}
-		}
-	}
-	// mutation sites: X.entries = … where X is not a node created in this function
-	type site struct {
-		fn *types.Func
-		as *ast.AssignStmt
-		X  ast.Expr
-	}
-	mutators := map[*types.Func][]site{}
-	for _, fn := range a.pkgFuncs {
-		fd := c.P.Decl(fn)
-		sc := newFnScope(a.info, fd.Body)
-		ast.Inspect(fd.Body, func(n ast.Node) bool {
-			as, ok := n.(*ast.AssignStmt)
-			if !ok || len(as.Lhs) != 1 {
-				return true
-			}
-			X := a.fieldSel(as.Lhs[0], a.entries)
-			if X == nil {
-				return true
-			}
-			// fresh node?
-			if o := objOf(a.info, X); o != nil {
-				for _, d := range sc.defs[o] {
-					if d != nil && a.isNewNodeAbove(unparen(d)) {
-						return true
-					}
-				}
-			}
-			if a.fieldSel(X, a.root) != nil && fn == c.P.Func("index/rtree", "NewTree") {
-				return true
-			}
-			mutators[fn] = append(mutators[fn], site{fn, as, X})
-			return true
-		})
-	}
-	// followedByU(fn, stmt): on every path from stmt to a return of fn, a call into U occurs
-	followed := func(fn *types.Func, target ast.Node) (bool, string) {
-		fd := c.P.Decl(fn)
-		okAll := true
-		cl := &FactsClient{}
-		cl.OnStmt = func(n ast.Node, s Facts) Facts {
-			if containsNode(n, target) {
-				if _, isLoop := n.(*ast.RangeStmt); !isLoop {
-					s["dirty"] = true
-					delete(s, "clean")
-				}
-			}
-			var scope ast.Node = n
-			if rs, isLoop := n.(*ast.RangeStmt); isLoop {
-				scope = rs.X // header only; the body is walked statement by statement
-			}
-			ast.Inspect(scope, func(m ast.Node) bool {
-				if _, isLit := m.(*ast.FuncLit); isLit {
-					return false
-				}
-				if call, ok := m.(*ast.CallExpr); ok {
-					if f := callee(a.info, call); f != nil && (U[f] || a.reachesU(f, U, map[*types.Func]bool{})) {
-						if !containsNode(call, target) {
-							s["clean"] = true
-						}
-					}
-				}
-				return true
-			})
-			return s
-		}
-		cl.OnReturn = func(r *ast.ReturnStmt, s Facts) {
-			if r != nil {
-				for _, e := range r.Results {
-					ast.Inspect(e, func(m ast.Node) bool {
-						if call, ok := m.(*ast.CallExpr); ok {
-							if f := callee(a.info, call); f != nil && (U[f] || a.reachesU(f, U, map[*types.Func]bool{})) {
-								s["clean"] = true
-							}
-						}
-						return true
-					})
-				}
-			}
-			if !s["clean"] {
-				okAll = false
-			}
-		}
-		fl := &Flow[Facts]{C: cl, Info: a.info}
-		fl.Run(fd.Body, Facts{"clean": true})
-		if len(fl.Unsupported) > 0 {
-			return false, "unsupported control flow"
-		}
-		return okAll, ""
-	}
-	var fns []*types.Func
-	for f := range mutators {
-		fns = append(fns, f)
-	}
-	sort.Slice(fns, func(i, j int) bool { return c.P.Decl(fns[i]).Pos() < c.P.Decl(fns[j]).Pos() })
-	for _, fn := range fns {
-		for i, st := range mutators[fn] {
-			cons := fmt.Sprintf("%s#mutates:%s", c.P.FuncName(fn), src(st.X))
-			if i > 0 {
-				cons = fmt.Sprintf("%s#%d", cons, i+1)
-			}
-			if U[fn] {
-				// inside the upward pass itself: the pass continues to the root (loop/recursion); checked by construction of U
-				c.OK(a.r3name, cons, st.as.Pos(), "inside the upward pass %s, which continues towards the root", fn.Name())
-				continue
-			}
-			ok, why := followed(fn, st.as)
-			if why != "" {
-				c.Unk(a.r3name, cons, st.as.Pos(), "%s", why)
-				continue
-			}
-			if ok {
-				c.OK(a.r3name, cons, st.as.Pos(), "followed on every path by the upward pass (%s)", strings.Join(us, "/"))
-				continue
-			}
-			// helper: every caller must follow the call with the upward pass
-			callersOK, ncall := true, 0
-			for _, g := range a.pkgFuncs {
-				gfd := c.P.Decl(g)
-				ast.Inspect(gfd.Body, func(n ast.Node) bool {
-					call, isCall := n.(*ast.CallExpr)
-					if !isCall || callee(a.info, call) != fn {
-						return true
-					}
-					ncall++
-					if U[g] {
-						return true
-					}
-					// the call may itself be an argument of a U call: f(x.split())
-					for _, anc := range enclosing(gfd.Body, call) {
-						if oc, ok := anc.(*ast.CallExpr); ok && oc != call {
-							if f := callee(a.info, oc); f != nil && U[f] {
-								return true
-							}
-						}
-					}
-					if ok2, _ := followed(g, call); !ok2 {
-						// one more level: g is itself a helper (assign → assignGroup → split)
-						if !a.allCallersFollow(g, U, followed, 0) {
-							callersOK = false
-						}
-					}
-					return true
-				})
-			}
-			if callersOK && ncall > 0 {
-				c.OK(a.r3name, cons, st.as.Pos(), "helper: every caller continues with the upward pass")
-			} else {
-				c.Bad(a.r3name, cons, st.as.Pos(), "`%s` changes a node's entries but a path returns to the user without the upward pass (%s) recomputing the envelopes above it: SearchIntersect prunes by stale boxes", src(st.as), strings.Join(us, "/"))
-			}
-		}
-	}
-}
-
-func (a *c11) allCallersFollow(g *types.Func, U map[*types.Func]bool, followed func(*types.Func, ast.Node) (bool, string), depth int) bool {
-	if depth > 3 {
-		return false
-	}
-	n := 0
-	ok := true
-	for _, h := range a.pkgFuncs {
-		hfd := a.c.P.Decl(h)
-		ast.Inspect(hfd.Body, func(nd ast.Node) bool {
-			call, isCall := nd.(*ast.CallExpr)
-			if !isCall || callee(a.info, call) != g {
-				return true
-			}
-			n++
-			if U[h] {
-				return true
-			}
-			for _, anc := range enclosing(hfd.Body, call) {
-				if oc, ok := anc.(*ast.CallExpr); ok && oc != call {
-					if f := callee(a.info, oc); f != nil && U[f] {
-						return true
-					}
-				}
-			}
-			if ok2, _ := followed(h, call); !ok2 {
-				if !a.allCallersFollow(h, U, followed, depth+1) {
-					ok = false
-				}
-			}
-			return true
-		})
-	}
-	return ok && n > 0
-}
-
-func (a *c11) reachesU(f *types.Func, U map[*types.Func]bool, seen map[*types.Func]bool) bool {
-	if U[f] {
-		return true
-	}
-	if seen[f] || a.c.P.Decl(f) == nil {
-		return false
-	}
-	seen[f] = true
-	// f unconditionally calls into U as a top-level statement of its body
-	fd := a.c.P.Decl(f)
-	for _, st := range fd.Body.List {
-		var call *ast.CallExpr
-		switch s := st.(type) {
-		case *ast.ExprStmt:
-			call, _ = unparen(s.X).(*ast.CallExpr)
-		case *ast.AssignStmt:
-			if len(s.Rhs) == 1 {
-				call, _ = unparen(s.Rhs[0]).(*ast.CallExpr)
-			}
-		}
-		if call != nil {
-			if g := callee(a.info, call); g != nil && a.reachesU(g, U, seen) {
-				return true
-			}
-		}
-	}
-	return false
-}
 
 // ---------------------------------------------------------------- R4
 
@@ -1250,192 +434,6 @@ func (a *c11) r4() {
 func m0pkg(a *c11) *types.Package { return a.treeT.Obj().Pkg() }
 
 // ---------------------------------------------------------------- R6
-
-func (a *c11) r6() {
-	c := a.c
-	e := newC04E2(c)
-	valid := func() []boxPair { return e.boxPairs(false) }
-	run := func(fname string, spec func(bp boxPair) (want interface{}, recvAfter *oBox), twoBoxes bool) {
-		f := c.P.Func("index/rtree", fname)
-		if f == nil || c.P.Decl(f) == nil {
-			return
-		}
-		name, pos := c.P.FuncName(f), c.P.Decl(f).Pos()
-		n := 0
-		for _, bp := range valid() {
-			n++
-			r1, r2 := e.mk(bp.a), e.mk(bp.b)
-			res, why := e.it.Call(f, nil, []oval{oPtr{r1}, oPtr{r2}}, 0)
-			if why != "" {
-				c.Unk("C11.R6", name, pos, "outside the order fragment: %s", why)
-				c.Evals(n)
-				return
-			}
-			want, after := spec(bp)
-			if wb, ok := want.(bool); ok {
-				if got, ok := res[0].(oBool); !ok || bool(got) != wb {
-					c.Bad("C11.R6", name, pos, "ordering r1=%s r2=%s: %s = %s, want %v", bp.a, bp.b, fname, showVal(res[0]), wb)
-					c.Evals(n)
-					return
-				}
-			}
-			if wbx, ok := want.(oBox); ok {
-				if got, ok := boxOf(res[0]); !ok || got != wbx {
-					c.Bad("C11.R6", name, pos, "ordering r1=%s r2=%s: %s = %s, want %s", bp.a, bp.b, fname, showVal(res[0]), wbx)
-					c.Evals(n)
-					return
-				}
-			}
-			if after != nil {
-				if got, ok := boxOf(r1); !ok || got != *after {
-					c.Bad("C11.R6", name, pos, "ordering r1=%s r2=%s: r1 becomes %s, want %s", bp.a, bp.b, showVal(r1), *after)
-					c.Evals(n)
-					return
-				}
-			}
-			if got, _ := boxOf(r2); got != bp.b {
-				c.Bad("C11.R6", name, pos, "%s modifies its second argument", fname)
-				return
-			}
-		}
-		c.Evals(n)
-		c.OK("C11.R6", name, pos, "agrees with the order-level specification in all %d orderings", n)
-	}
-	// intersect: discovered as the predicate used by the search; named anchors are internal, so find by use
-	search := c.P.Method("index/rtree", "Rtree", "SearchIntersect")
-	var pred *types.Func
-	var searchFn *types.Func
-	if sfd := c.P.Decl(search); sfd != nil {
-		for _, g := range append([]*types.Func{search}, calleesOf(c, a.info, search)...) {
-			gfd := c.P.Decl(g)
-			if gfd == nil {
-				continue
-			}
-			ast.Inspect(gfd.Body, func(n ast.Node) bool {
-				if is, ok := n.(*ast.IfStmt); ok {
-					if call, ok := unparen(is.Cond).(*ast.CallExpr); ok && len(call.Args) == 2 {
-						if f := callee(a.info, call); f != nil && c.P.Decl(f) != nil && a.fieldSel(call.Args[0], a.bb) != nil {
-							pred, searchFn = f, g
-						}
-					}
-				}
-				return true
-			})
-		}
-	}
-	if pred == nil {
-		c.Unk("C11.R6", "index/rtree#search-predicate", token.NoPos, "the box predicate filtering the search was not found")
-	} else {
-		run(pred.Name(), func(bp boxPair) (interface{}, *oBox) {
-			return bp.a.minx <= bp.b.maxx && bp.b.minx <= bp.a.maxx && bp.a.miny <= bp.b.maxy && bp.b.miny <= bp.a.maxy, nil
-		}, true)
-		// search loop: full range over n.entries, the predicate is the only filter, recursion into children
-		fd := c.P.Decl(searchFn)
-		sc := newFnScope(a.info, fd.Body)
-		msg := "no loop over the node's entries"
-		for _, st := range fd.Body.List {
-			l := sc.loopOf(st)
-			if l == nil || l.Hi.Of == nil || a.fieldSel(l.Hi.Of, a.entries) == nil {
-				continue
-			}
-			msg = ""
-			if !(l.Lo.K == 0 && l.Lo.Of == nil && l.Hi.K == 0) {
-				msg = "search loop " + l.String() + " does not visit every entry"
-			}
-			brk, cont, rets := earlyExits(l.Body)
-			if len(brk)+len(cont)+len(rets) > 0 {
-				msg = "search loop has an early exit: matching entries can be missed"
-			}
-			if len(l.Body.List) != 1 {
-				msg = "search loop body has more than the intersect filter"
-			} else if is, ok := l.Body.List[0].(*ast.IfStmt); !ok || is.Else != nil {
-				msg = "search loop body is not a single intersect filter"
-			} else if call, ok := unparen(is.Cond).(*ast.CallExpr); !ok || callee(a.info, call) != pred {
-				msg = "entries are filtered by `" + src(is.Cond) + "`, not by the intersect predicate alone"
-			}
-		}
-		if msg == "" {
-			c.OK("C11.R6", c.P.FuncName(searchFn)+"#loop", fd.Pos(), "visits every entry whose box intersects the query")
-		} else {
-			c.Bad("C11.R6", c.P.FuncName(searchFn)+"#loop", fd.Pos(), "%s", msg)
-		}
-	}
-	run("containsRect", func(bp boxPair) (interface{}, *oBox) {
-		return bp.b.minx >= bp.a.minx && bp.b.miny >= bp.a.miny && bp.b.maxx <= bp.a.maxx && bp.b.maxy <= bp.a.maxy, nil
-	}, true)
-	run("enlarge", func(bp boxPair) (interface{}, *oBox) {
-		j := join(bp.a, bp.b, false, false)
-		return nil, &j
-	}, true)
-	run("boundingBox", func(bp boxPair) (interface{}, *oBox) {
-		return join(bp.a, bp.b, false, false), nil
-	}, true)
-	// the envelope fold: first entry copied, the rest joined, full range
-	if fd := c.P.Decl(a.fold); fd != nil {
-		recv := receiverVar(a.info, fd)
-		sc := newFnScope(a.info, fd.Body)
-		msg := "no loop over the entries"
-		for _, st := range fd.Body.List {
-			l := sc.loopOf(st)
-			if l == nil || l.Hi.Of == nil {
-				continue
-			}
-			if x := a.fieldSel(l.Hi.Of, a.entries); x == nil || objOf(a.info, x) != recv {
-				continue
-			}
-			msg = ""
-			if !(l.Lo.K == 0 && l.Lo.Of == nil && l.Hi.K == 0) {
-				msg = "envelope loop " + l.String() + " does not fold every entry"
-			}
-			brk, cont, rets := earlyExits(l.Body)
-			if len(brk)+len(cont)+len(rets) > 0 {
-				msg = "envelope loop has an early exit"
-			}
-		}
-		if msg == "" {
-			c.OK("C11.R6", c.P.FuncName(a.fold), fd.Pos(), "folds every entry's box")
-		} else {
-			c.Bad("C11.R6", c.P.FuncName(a.fold), fd.Pos(), "%s", msg)
-		}
-	}
-	// containsPoint
-	if f := c.P.Func("index/rtree", "containsPoint"); f != nil && c.P.Decl(f) != nil {
-		name, pos := c.P.FuncName(f), c.P.Decl(f).Pos()
-		n, bad := 0, false
-		for _, ox := range weakOrderings(3) {
-			if ox[0] > ox[1] {
-				continue
-			}
-			for _, oy := range weakOrderings(3) {
-				if oy[0] > oy[1] {
-					continue
-				}
-				n++
-				res, why := e.it.Call(f, nil, []oval{oPtr{e.mk(oBox{ox[0], oy[0], ox[1], oy[1]})}, e.it.point(e.pt, ox[2], oy[2])}, 0)
-				if why != "" {
-					c.Unk("C11.R6", name, pos, "outside the order fragment: %s", why)
-					bad = true
-					break
-				}
-				want := ox[0] <= ox[2] && ox[2] <= ox[1] && oy[0] <= oy[2] && oy[2] <= oy[1]
-				if got, ok := res[0].(oBool); !ok || bool(got) != want {
-					c.Bad("C11.R6", name, pos, "box [(r%d,r%d)-(r%d,r%d)] p=(r%d,r%d): containsPoint = %s, want %v", ox[0], oy[0], ox[1], oy[1], ox[2], oy[2], showVal(res[0]), want)
-					bad = true
-					break
-				}
-			}
-			if bad {
-				break
-			}
-		}
-		c.Evals(n)
-		if !bad {
-			c.OK("C11.R6", name, pos, "closed containment in all %d orderings", n)
-		}
-	}
-}
-
-// ---------------------------------------------------------------- R5
 
 func (a *c11) r5() {
 	c := a.c
